@@ -47,3 +47,224 @@ func guardToSwitch(file *ast.File) {
 		return true
 	})
 }
+
+// projectLocals (wave 7): locals that only NAME something are replaced by what they name, per function:
+//
+//	x := T{f: e, g: e2}      (assigned exactly once, address never taken)   x.f -> e, x.g -> e2
+//	x, y := r.a, r.b.c       (assigned exactly once; right-hand sides are pure selector chains)   x -> r.a
+//
+// and the assignment is dropped when nothing else uses the local (so a value type that bundles block
+// parameters, or a helper that copies receiver fields into locals first, leaves no trace).  The analyses
+// that follow are flow-insensitive inside a function, and the right-hand sides have no side effects
+// (selector chains; composite literals of getters / conversions as in the preambles of the scan functions).
+func projectLocals(fd *ast.FuncDecl) {
+	if fd.Body == nil {
+		return
+	}
+	for round := 0; round < 4; round++ {
+		assigns := map[string]int{}
+		bad := map[string]bool{}
+		note := func(e ast.Expr) {
+			if id, ok := e.(*ast.Ident); ok {
+				assigns[id.Name]++
+			}
+		}
+		ast.Inspect(fd.Body, func(n ast.Node) bool {
+			switch x := n.(type) {
+			case *ast.AssignStmt:
+				for _, l := range x.Lhs {
+					note(l)
+				}
+			case *ast.IncDecStmt:
+				note(x.X)
+			case *ast.RangeStmt:
+				if x.Key != nil {
+					note(x.Key)
+				}
+				if x.Value != nil {
+					note(x.Value)
+				}
+			case *ast.ValueSpec:
+				for _, nm := range x.Names {
+					assigns[nm.Name] += 2 // var x T; later assignments: not a single definition
+				}
+			case *ast.UnaryExpr:
+				if x.Op == token.AND {
+					if id, ok := x.X.(*ast.Ident); ok {
+						bad[id.Name] = true
+					}
+				}
+			}
+			return true
+		})
+		if fd.Type.Params != nil {
+			for _, p := range fd.Type.Params.List {
+				for _, nm := range p.Names {
+					bad[nm.Name] = true
+				}
+			}
+		}
+		if fd.Recv != nil {
+			for _, p := range fd.Recv.List {
+				for _, nm := range p.Names {
+					bad[nm.Name] = true
+				}
+			}
+		}
+		pureChain := func(e ast.Expr) bool {
+			for {
+				switch x := e.(type) {
+				case *ast.SelectorExpr:
+					e = x.X
+				case *ast.Ident:
+					return x.Name != "nil" && x.Name != "true" && x.Name != "false"
+				default:
+					return false
+				}
+			}
+		}
+		fields := map[string]map[string]ast.Expr{} // x -> field -> expr
+		alias := map[string]ast.Expr{}
+		defStmt := map[string]*ast.AssignStmt{}
+		ast.Inspect(fd.Body, func(n ast.Node) bool {
+			as, ok := n.(*ast.AssignStmt)
+			if !ok || len(as.Lhs) != len(as.Rhs) {
+				return true
+			}
+			for i, l := range as.Lhs {
+				id, ok := l.(*ast.Ident)
+				if !ok || id.Name == "_" || assigns[id.Name] != 1 || bad[id.Name] {
+					continue
+				}
+				r := as.Rhs[i]
+				if u, ok := r.(*ast.UnaryExpr); ok && u.Op == token.AND {
+					continue
+				}
+				if cl, ok := unparen(r).(*ast.CompositeLit); ok && len(cl.Elts) > 0 {
+					m := map[string]ast.Expr{}
+					okAll := true
+					for _, el := range cl.Elts {
+						kv, ok := el.(*ast.KeyValueExpr)
+						if !ok {
+							okAll = false
+							break
+						}
+						k, ok := kv.Key.(*ast.Ident)
+						if !ok {
+							okAll = false
+							break
+						}
+						m[k.Name] = kv.Value
+					}
+					if okAll {
+						fields[id.Name] = m
+						defStmt[id.Name] = as
+					}
+				} else if pureChain(r) && len(as.Lhs) >= 1 {
+					if _, isId := r.(*ast.Ident); !isId { // x := y renames nothing worth chasing
+						alias[id.Name] = r
+						defStmt[id.Name] = as
+					}
+				}
+			}
+			return true
+		})
+		if len(fields) == 0 && len(alias) == 0 {
+			return
+		}
+		// uses
+		mapExprs(fd.Body, func(e ast.Expr) ast.Expr {
+			switch x := e.(type) {
+			case *ast.SelectorExpr:
+				if id, ok := x.X.(*ast.Ident); ok {
+					if m, ok := fields[id.Name]; ok {
+						if v, ok := m[x.Sel.Name]; ok {
+							return &ast.ParenExpr{X: cloneExpr(v)}
+						}
+					}
+				}
+			}
+			return e
+		})
+		// alias uses: every identifier occurrence except on the left of its own definition
+		skip := map[*ast.Ident]bool{}
+		for name, as := range defStmt {
+			for _, l := range as.Lhs {
+				if id, ok := l.(*ast.Ident); ok && id.Name == name {
+					skip[id] = true
+				}
+			}
+		}
+		mapExprs(fd.Body, func(e ast.Expr) ast.Expr {
+			if id, ok := e.(*ast.Ident); ok && !skip[id] {
+				if r, ok := alias[id.Name]; ok {
+					return cloneExpr(r)
+				}
+			}
+			return e
+		})
+		// drop definitions whose local is no longer used
+		used := map[string]int{}
+		ast.Inspect(fd.Body, func(n ast.Node) bool {
+			if id, ok := n.(*ast.Ident); ok && !skip[id] {
+				used[id.Name]++
+			}
+			return true
+		})
+		dead := func(s ast.Stmt) ast.Stmt { // nil = delete
+			as, ok := s.(*ast.AssignStmt)
+			if !ok {
+				return s
+			}
+			var nl, nr []ast.Expr
+			changed := false
+			for i, l := range as.Lhs {
+				if id, ok := l.(*ast.Ident); ok && defStmt[id.Name] == as && used[id.Name] == 0 && len(as.Lhs) == len(as.Rhs) {
+					changed = true
+					continue
+				}
+				nl = append(nl, l)
+				if i < len(as.Rhs) {
+					nr = append(nr, as.Rhs[i])
+				}
+			}
+			if !changed {
+				return s
+			}
+			if len(nl) == 0 {
+				return nil
+			}
+			as.Lhs, as.Rhs = nl, nr
+			return as
+		}
+		var prune func(list []ast.Stmt) []ast.Stmt
+		prune = func(list []ast.Stmt) []ast.Stmt {
+			var out []ast.Stmt
+			for _, s := range list {
+				if s2 := dead(s); s2 != nil {
+					out = append(out, s2)
+				}
+			}
+			return out
+		}
+		ast.Inspect(fd.Body, func(n ast.Node) bool {
+			switch x := n.(type) {
+			case *ast.BlockStmt:
+				x.List = prune(x.List)
+			case *ast.CaseClause:
+				x.Body = prune(x.Body)
+			}
+			return true
+		})
+		// simplify the parentheses / projections introduced
+		mapExprs(fd.Body, func(e ast.Expr) ast.Expr {
+			if p, ok := e.(*ast.ParenExpr); ok {
+				switch p.X.(type) {
+				case *ast.Ident, *ast.SelectorExpr, *ast.CallExpr, *ast.BasicLit:
+					return p.X
+				}
+			}
+			return simplify(e)
+		})
+	}
+}
